@@ -1038,6 +1038,24 @@ func RunCase(out *vh.Out, rng *vh.Rand, tgt Target, big bool) {
 		nops = 6
 	}
 	for i := 0; i < nops; i++ {
+		// inside a transaction: churn ONE key (mostly one that is in committed storage) through a run of deletes and puts,
+		// then read it and list its folder — the transaction's private write set must give the last operation's answer
+		if r.txn != nil && rng.Chance(14) {
+			if k := r.pickKey(85); okPut(k) && okDel(k) {
+				for j, n := 0, 2+rng.Intn(4); j < n; j++ {
+					if rng.Chance(55) {
+						r.del(k)
+					} else {
+						r.put(k, r.val())
+					}
+				}
+				r.get(k)
+				if p := k[:strings.LastIndex(k, "/")+1]; okKey(p) {
+					r.list(p)
+				}
+				continue
+			}
+		}
 		c := rng.Intn(100)
 		switch {
 		case c < 38:
